@@ -40,6 +40,7 @@ class Preemptor:
         self.site_order: list[tuple[str, int, str]] = []
         self._site_seen: set[tuple[str, int]] = set()
         # ordinals of the first ``early_k`` executions of every distinct line (counting passes)
+        self.once = False
         self.early_k = 0
         self.early: list[int] = []
         self._site_count: dict[tuple[str, int], int] = {}
@@ -92,7 +93,12 @@ class Preemptor:
                     )
                     cb(frame)
                 finally:
-                    sys.settrace(self._global)
+                    done = self.once and len(self.taken) >= len(self.points) + len(self.site_points)
+                    if not done:
+                        sys.settrace(self._global)
+                if done:
+                    # every scheduled point has fired: the rest of the call runs untraced
+                    return None
         return self._local
 
 
